@@ -2,7 +2,7 @@
 constraints are unsatisfiable *given the current values of the non-random fields*, for every short history of calls that mixes
 failures, edits of non-random state (a control field, the list length) and inline constraints on one and the same object."""
 import itertools
-from pyvc.contract import contract
+from pyvc.contract import contract, library_only
 
 STEPS = ("mode0", "mode1", "mode2", "append", "inline_bad", "inline_eq", "plain")
 
@@ -87,6 +87,7 @@ def c_histories(c, hist):
         except SolveFailure:
             got = False
         except Exception as e:
+            library_only(e)
             c.check("C02: no exception other than SolveFailure comes out of a call, whatever happened before on the object", False,
                     info="%s: %s: %s" % (tag, type(e).__name__, e))
             return
